@@ -27,10 +27,19 @@ package elasticsearch
 //@     ghostout sentTo
 //@     ensures err == nil ==> sentTo == old(sentTo) + len(body)
 //@     ensures err != nil ==> sentTo == old(sentTo)
+//@   callee send(body) (code, err)
+//@     requires sameblock(body, data) && off(body) == off(data) + begin[left] && len(body) == begin[right] - begin[left]
+//@     requires sentTo == begin[left]
+//@     ghostout sentTo
+//@     ensures err == nil ==> sentTo == old(sentTo) + len(body)
+//@     ensures err != nil ==> sentTo == old(sentTo)
 //@   callee WithLabelValues(l)
 //@     pure
 //@   callee Inc()
 //@     pure
+
+// (The second clause covers the same request made through the plugin's own send(): one
+// POST of exactly the bytes it is given - send's contract.)
 
 // appendIndexName: what is spliced between the quotes of "_index" must be a
 // JSON string body.  The event's own field value goes through appendEscaped: every
